@@ -151,7 +151,7 @@ func (c *Ctx) Query(hyps []*Term, goal *Term, opts QueryOpts) string {
 		cs := map[string]bool{}
 		fs := map[string]bool{}
 		t.FreeSyms(cs, fs, map[string]int{})
-		for k := range cs {
+		for _, k := range sortedKeys(cs) {
 			if seenC[k] {
 				continue
 			}
@@ -166,7 +166,7 @@ func (c *Ctx) Query(hyps []*Term, goal *Term, opts QueryOpts) string {
 				work = append(work, as...)
 			}
 		}
-		for k := range fs {
+		for _, k := range sortedKeys(fs) {
 			if seenF[k] {
 				continue
 			}
